@@ -1,5 +1,6 @@
 from __future__ import absolute_import
 
+import errno
 import os
 import threading
 
@@ -47,11 +48,19 @@ def _get_storage_file(context, command_set, path):
     file_name = '{}.dcm'.format(command_set.AffectedSOPInstanceUID)
     full_name = os.path.join(path, file_name)
     i = 0
-    while os.path.exists(full_name):
-        i += 1
-        full_name = '{}_{}'.format(full_name, i)
+    while True:
+        # create file exclusively, so existing (or concurrently stored)
+        # instance is never overwritten
+        try:
+            os.close(os.open(full_name, os.O_WRONLY | os.O_CREAT | os.O_EXCL))
+            break
+        except OSError as exc:
+            if exc.errno != errno.EEXIST:
+                raise
+            i += 1
+            full_name = '{}_{}'.format(full_name, i)
 
-    ds = open(os.path.join(path, file_name), 'w+b')
+    ds = open(full_name, 'r+b')
     start = ds.tell()
     try:
         applicationentity.write_meta(ds, command_set, context.supported_ts)
